@@ -30,6 +30,12 @@ class Client(object):
     def cmd(self, msg):
         if self.c not in self.s.w.conns:      # the server dropped this connection (an exception escaped a handler)
             return {"log": [], "exc": None}
+        import gen as _G
+        if _G.LEARNED_KEYS and self.s.rng.random() < 0.3:
+            k = self.s.rng.choice(_G.LEARNED_KEYS)
+            if k not in msg:
+                msg = dict(msg)
+                msg[k] = self.s.rng.choice(_G.LEARNED_VALUES)
         if self.s.rng.random() < 0.2:
             msg = dict(msg, id=self.s.rng.choice(["i1", "i2", None]))
         o = self.s.emit({"k": "cmd", "c": self.c, "msg": msg})
@@ -697,6 +703,106 @@ def reuse_after_prune(s):
 
 
 SCRIPTS["reuse-after-prune"] = reuse_after_prune
+
+
+def dst(s):
+    """C12 C13 (C16): the server runs in a local time zone around a daylight-saving transition (profile.tz): a
+    subscribed channel, a channel with recent activity refreshed now and then, and an abandoned one, across
+    an hour of sweeps straddling the transition"""
+    r = s.rng
+    P, E = s.w.PERIOD, s.w.EXP
+    a1 = Client(s, "a1", "s1")
+    a1.cmd({"type": "claim", "nameplate": "1"})
+    a1.cmd({"type": "open", "mailbox": "msub"})              # stays connected: must never expire
+    a1.cmd({"type": "add", "phase": "p", "body": "00"})
+    idle = Client(s, "a2", "s1")
+    idle.cmd({"type": "open", "mailbox": "midle"})
+    idle.cmd({"type": "add", "phase": "p", "body": "01"})
+    idle.drop()                                               # abandoned: gone after EXP + one period
+    t = 0
+    k = 0
+    while t < 90 * 60 * 8:
+        if k % 2 == 0:
+            c = Client(s, "a2", r.choice(["s1", "s2"]))       # comes back every other period: stays alive
+            c.cmd({"type": "claim", "nameplate": "7"})
+            c.cmd({"type": "open", "mailbox": "mactive"})
+            if r.random() < 0.5:
+                c.cmd({"type": "add", "phase": "p", "body": "%02x" % (k % 256)})
+            c.drop()
+        dt = P + r.choice([0, 0, 1, 8])
+        _adv(s, dt)
+        t += dt
+        k += 1
+    a1.cmd({"type": "add", "phase": "p", "body": "ff"})
+    late = Client(s, "a1", "s2")
+    late.cmd({"type": "claim", "nameplate": "1"})
+    late.cmd({"type": "open", "mailbox": "msub"})
+
+
+SCRIPTS["dst"] = dst
+
+
+def np_cross(s):
+    """C03 C07 (C06): several nameplates live side by side (two apps); one client gives up the lonely way -- claim,
+    open, close WITHOUT release, so its nameplate goes with its mailbox -- and only then do the holders of the OTHER
+    nameplates release, re-claim, and new sides claim the retired names: each name's new incarnation must get a fresh
+    mailbox id, releases must retire exactly their own nameplate, `reclaimed` must still be answered"""
+    r = s.rng
+    apps = ["a1", "a2"]
+    names = ["1", "2", "4"]
+    holders = {}
+    for a in apps:
+        for n in r.sample(names, r.choice([1, 2, 3])):
+            c = Client(s, a, "s1")
+            o = c.cmd({"type": "claim", "nameplate": n})
+            if r.random() < 0.5:
+                c2 = Client(s, a, "s2")
+                c2.cmd({"type": "claim", "nameplate": n})
+                if r.random() < 0.5:
+                    c2.drop()
+            holders[(a, n)] = c
+    # the lonely client(s)
+    for _ in range(r.choice([1, 2])):
+        a = r.choice(apps)
+        free = [n for n in names + ["9"] if (a, n) not in holders]
+        n = r.choice(free) if free else "9"
+        l = Client(s, a, "s3")
+        o = l.cmd({"type": "claim", "nameplate": n})
+        mb = None
+        for e in o["log"]:
+            if e[0] == "F" and e[3] == "claimed" and isinstance(e[4], str):
+                mb = bytes.fromhex(e[4]).decode("utf-8")
+        if mb is not None:
+            l.cmd({"type": "open", "mailbox": mb})
+            l.cmd({"type": "add", "phase": "p", "body": "00"})
+            l.cmd({"type": "close", "mood": "lonely"})
+        l.drop()
+        pause(s)
+    keys = list(holders)
+    r.shuffle(keys)
+    for (a, n) in keys:
+        c = holders[(a, n)]
+        x = r.random()
+        if x < 0.7:
+            c.cmd({"type": "release"})
+            if r.random() < 0.5:
+                other = Client(s, a, "s2")
+                other.cmd({"type": "release", "nameplate": n})
+                other.drop()
+            if r.random() < 0.5:
+                again = Client(s, a, "s1")
+                again.cmd({"type": "claim", "nameplate": n})      # reclaimed if the name is still live, a new incarnation otherwise
+                again.drop()
+        newc = Client(s, a, r.choice(["s4", "s5"]))
+        newc.cmd({"type": "claim", "nameplate": n})
+        newc.cmd({"type": "list"})
+        if r.random() < 0.5:
+            newc.cmd({"type": "release"})
+        newc.drop()
+        pause(s)
+
+
+SCRIPTS["np-cross"] = np_cross
 
 
 def run(name, session):
